@@ -87,8 +87,14 @@ func goEnv() []string {
 	return env
 }
 
+// workDir is removed on every way out (deferred calls do not run on os.Exit).
+var workDir string
+
 func fatal(format string, a ...any) {
 	fmt.Fprintf(os.Stderr, "vmc: "+format+"\n", a...)
+	if workDir != "" {
+		os.RemoveAll(workDir)
+	}
 	os.Exit(2)
 }
 
@@ -267,6 +273,7 @@ func check(prop, tier string) int {
 	}
 	work := filepath.Join(verifDir, ".work", fmt.Sprintf("%s-%s-%d", prop, tier, os.Getpid()))
 	os.MkdirAll(work, 0o755)
+	workDir = work
 	defer os.RemoveAll(work)
 	b, err := buildHarness(work, needInst, needRace, needCLI)
 	os.Setenv("VH_CLI_DIR", work)
@@ -570,6 +577,7 @@ func replay(path string) int {
 	}
 	work := filepath.Join(verifDir, ".work", fmt.Sprintf("replay-%d", os.Getpid()))
 	os.MkdirAll(work, 0o755)
+	workDir = work
 	defer os.RemoveAll(work)
 	bl, err := buildHarness(work, rf.Inst, rf.Race, rf.Engine == "e8")
 	os.Setenv("VH_CLI_DIR", work)
